@@ -37,7 +37,7 @@ def analysis(prog):
     key = id(prog)
     if key in _CACHE:
         return _CACHE[key]
-    an = bla.Analysis(prog)
+    an = bla.Analysis(prog, max_depth=8)
     es = entries(prog)
     for b in es:
         an.analyse_entry(b)
